@@ -307,7 +307,8 @@ def _run(chk, scratch, thorough):
         shutil.rmtree(rdir, ignore_errors=True)
     # a run that works with a database found through the cache (converted by an earlier, finished run A into A's folder) while another run
     # on the same annotation, whose options make the record unusable for it (--complete_genedb off), converts again and replaces the record
-    for qi, k in enumerate((4, 5) if thorough else (4,)):
+    # variant 'into-A': C is a --force re-run INTO A's output folder (B and C still have separate output folders), so it rebuilds the very file B works with
+    for qi, (k, c_out) in enumerate(((4, "OUT_C"), (5, "OUT_C"), (4, "OUT_A"), (5, "OUT_A")) if thorough else ((4, "OUT_C"), (4, "OUT_A"))):
         rdir = os.path.join(scratch, "superseded%d" % qi)
         home = os.path.join(rdir, "home")
         os.makedirs(home)
@@ -322,8 +323,10 @@ def _run(chk, scratch, thorough):
         with open(lst, "w") as f:
             for e in range(N_EXP):
                 f.write("#EX%d\n%s\n" % (e, os.path.join(d, "r.bam")))
-        desc = "superseded-record scenario %d: A (finished) converted annotation %d; B (%d experiments) uses A's database; C converts it again without --complete_genedb" % (qi, k, N_EXP)
-        wit = {"scenario": "superseded-record", "input": k}
+        desc = "superseded-record scenario %d: A (finished) converted annotation %d; B (%d experiments) uses A's database; C converts it again without --complete_genedb%s" % (
+            qi, k, N_EXP, " as a --force re-run into A's output folder" if c_out == "OUT_A" else "")
+        wit = {"scenario": "superseded-record", "input": k, "c_output_folder": c_out}
+        into_a = c_out == "OUT_A"
         solo_b = runner.run_isoquant(pipeline.std_args(d, os.path.join(rdir, "solo_b"), threads=1, bam_list=lst), os.path.join(rdir, "home_b"))
         solo_c = runner.run_isoquant(pipeline.std_args(d, os.path.join(rdir, "solo_c"), threads=1, complete=False), os.path.join(rdir, "home_c"))
         ra = pipeline.run(d, os.path.join(rdir, "OUT_A"), threads=1, home=home)
@@ -343,7 +346,7 @@ def _run(chk, scratch, thorough):
                 if os.path.exists(logp) and db_a in open(logp).read():
                     break
                 time.sleep(0.05)
-            return which, runner.run_isoquant(pipeline.std_args(d, os.path.join(rdir, "OUT_C"), threads=1, complete=False), home, mon=["cache"],
+            return which, runner.run_isoquant(pipeline.std_args(d, os.path.join(rdir, c_out), threads=1, complete=False), home, mon=["cache"],
                                               cfg={"cache_seed": 2, "cache_max_delay": 0.0}, env_extra={"VERIF_RUN_ID": "C"}, cwd=rdir)
         res = dict(runner.parallel(bc, ["B", "C"], workers=2))
         used_a = ("Using " + db_a) in res["B"]["out"] or db_a in res["B"]["out"]
@@ -357,13 +360,13 @@ def _run(chk, scratch, thorough):
                 continue
             if r["rc"] != 0:
                 m = re.findall(r"(\w+Error)", r["out"])
-                chk.violation("concurrent-run-failed:superseded-record:" + (m[-1] if m else "exit%s" % r["rc"]),
+                chk.violation("concurrent-run-failed:superseded-record%s:" % (":database-rebuilt-in-place" if into_a else "") + (m[-1] if m else "exit%s" % r["rc"]),
                               "%s: run %s exited %s: %s" % (desc, which, r["rc"], r["out"][-400:].replace("\n", " | ")), wit)
                 continue
             prefixes = ["EX%d" % e for e in range(N_EXP)] if which == "B" else [pipeline.PREFIX]
             for pf in prefixes:
-                for rel, why in runner.compare_trees(os.path.join(rdir, solo_out, pf), os.path.join(rdir, "OUT_" + which, pf))[:4]:
-                    chk.violation("concurrent-output-differs:superseded-record:" + (rel.split(".", 1)[1] if "." in rel else rel),
+                for rel, why in runner.compare_trees(os.path.join(rdir, solo_out, pf), os.path.join(rdir, c_out if which == "C" else "OUT_B", pf))[:4]:
+                    chk.violation("concurrent-output-differs:superseded-record%s:" % (":database-rebuilt-in-place" if into_a else "") + (rel.split(".", 1)[1] if "." in rel else rel),
                                   "%s: run %s file %s/%s %s compared with the same run executed alone" % (desc, which, pf, rel, why), wit)
         # observation only (A is not one of the simultaneously executing runs the statement speaks about)
         chk.extra.setdefault("database_of_finished_run_still_present", []).append(os.path.exists(db_a))
